@@ -37,8 +37,10 @@ class Ctx:
         self.assumptions = []
         self.extra = {}
         self._progs = {}
+        self.flavour = 'configured'
         self.t0 = time.time()
-    def program(self, flavour='configured'):
+    def program(self, flavour=None):
+        flavour = flavour or self.flavour
         if flavour not in self._progs:
             from . import ir
             self._progs[flavour] = ir.load_program(self.root, flavour)
@@ -160,6 +162,40 @@ def run_property(prop, runner, explanation, tier, seed, root):
     broken = None
     try:
         runner(ctx)
+        if tier == 'thorough':
+            # second build flavour: every -m*/-DINTEL_* flag stripped (portable code paths of the kernels)
+            sub = Ctx(prop, tier, seed, root)
+            sub.flavour = 'portable'
+            runner(sub)
+            for r in sub.rules:
+                r.id = r.id + '.portable'
+                for i in r.instances:
+                    i['rule'] = r.id
+                ctx.rules.append(r)
+            ctx._progs.update({k: v for k, v in sub._progs.items() if k not in ctx._progs})
+            ctx.extra['flavours'] = ['configured', 'portable']
+            if os.path.abspath(root) == '/repo' and not os.environ.get('LECVERIF_NO_SELFTEST'):
+                from . import selftest
+                st = selftest.run_selftest(prop, root)
+                m = [x for x in st if x['kind'] == 'M' and x['exit'] is not None]
+                b = [x for x in st if x['kind'] == 'B' and x['exit'] is not None]
+                ctx.extra['selftest'] = {
+                    'what': 'evidence about the checker, not about the property: this property\'s check run against scratch copies of the '
+                            'current tree with one catalogue edit / seeded change / benign refactoring applied',
+                    'mutants_total': len(m), 'mutants_reported': sum(1 for x in m if x['status'] == 'killed'),
+                    'mutants_analysis_broken': sum(1 for x in m if x['status'] == 'analysis-broken'),
+                    'mutants_survived': [x['name'] for x in m if x['status'] == 'SURVIVED'],
+                    'benign_total': len(b), 'benign_silent': sum(1 for x in b if x['status'] == 'silent'),
+                    'benign_false_alarms': [x['name'] for x in b if x['status'] == 'FALSE-ALARM'],
+                    'benign_analysis_broken': [x['name'] for x in b if x['status'] == 'analysis-broken'],
+                    'skipped': [x['name'] for x in st if x['exit'] is None],
+                    'items': st,
+                }
+                s_ = ctx.extra['selftest']
+                print(f"  selftest: mutants reported {s_['mutants_reported']}/{s_['mutants_total']} "
+                      f"(analysis-broken {s_['mutants_analysis_broken']}, survived {len(s_['mutants_survived'])}); "
+                      f"benign silent {s_['benign_silent']}/{s_['benign_total']} (false alarms {len(s_['benign_false_alarms'])}, "
+                      f"analysis-broken {len(s_['benign_analysis_broken'])}); skipped {len(s_['skipped'])}")
     except AnalysisBroken as e:
         broken = str(e)
     except Exception as e:      # a crash of the checker is analysis-broken, never pass/violation
